@@ -156,8 +156,17 @@ def rank(stage):
             elif isinstance(s, ast.If):
                 if any(isinstance(b, ast.Continue) for b in s.body):
                     dup.append(":".join(["if"] + toks(s.test) + ["continue"]))
+                guards_prel = any(isinstance(b, (ast.Assign, ast.AugAssign)) and
+                                  _base(b.targets[0] if isinstance(b, ast.Assign) else b.target) in ("Prel", "Prel_DL")
+                                  for b in s.body + s.orelse)
+                if guards_prel:
+                    prel.append(":".join(["if"] + toks(s.test)))
                 visit(s.body)
+                if guards_prel and s.orelse:
+                    prel.append("else")
                 visit(s.orelse)
+                if guards_prel:
+                    prel.append("endif")
             elif isinstance(s, ast.For):
                 if any(isinstance(x, ast.Name) and x.id in ("Prel_DL", "negloglike_list") for b in s.body for x in ast.walk(b)):
                     prel.append(":".join(["for"] + toks(s.target) + ["in"] + toks(s.iter)))
